@@ -292,7 +292,7 @@ class Fn:
             raise CTransError('%s: member expression on a non-variable' % self.name)
         if k == 'ArraySubscriptExpr' and strip(n['inner'][0]).get('kind') not in ('DeclRefExpr', 'MemberExpr'):
             mem, row, idx = self.target(n)
-            return '(%s %s %s)' % (V(mem), row, idx)
+            return '(%s %s %s)' % (self.rmem(mem), row, idx)
         if k == 'ArraySubscriptExpr' and strip(n['inner'][0]).get('kind') == 'MemberExpr' and \
            strip(strip(n['inner'][0])['inner'][0]).get('kind') == 'ArraySubscriptExpr':
             # `m4ri_codebook[k]->inc[i]` / `->ord[i]`: the global code book is a pair of function parameters
@@ -325,7 +325,7 @@ class Fn:
                 return '(CLoop.tab [%s] %s %s)' % (', '.join(vals), self.lit(0, ak), ie)
             if nm in self.ptrs:
                 mem, row = self.ptrs[nm]
-                return '(%s %s (%s + %s))' % (V(mem), row, V(nm), ie)
+                return '(%s %s (%s + %s))' % (self.rmem(mem), row, V(nm), ie)
             if nm in self.locals:
                 raise CTransError('%s: subscript of local %s' % (self.name, nm))
             self.free(V(nm), 'p:' + ek)
@@ -347,7 +347,7 @@ class Fn:
             return V('deref_' + strip(n['inner'][0])['referencedDecl']['name'])
         if k == 'UnaryOperator' and n['opcode'] == '*':
             mem, row, idx = self.target(n)
-            return '(%s %s %s)' % (V(mem), row, idx)
+            return '(%s %s %s)' % (self.rmem(mem), row, idx)
         if k == 'UnaryOperator' and n['opcode'] in ('++', '--'):
             t = strip(n['inner'][0])
             if t.get('kind') != 'DeclRefExpr' or t['referencedDecl']['name'] not in self.locals or \
@@ -416,6 +416,98 @@ class Fn:
         """length of a permutation window (`end - begin` of its mzp_init_window)"""
         e_, b_ = self.salias_len[y]
         return '(%s - %s)' % (self.value(e_), self.value(b_))
+
+    def rmem(self, mem):
+        """the Lean term a READ through memory `mem` looks at: for a const operand X that the caller may pass identical to the
+        destination D (catalogue option alias={X: D}) it is D's current memory when the Boolean parameter `v_D__same__X` holds"""
+        al = getattr(self, 'alias', {})
+        if mem.startswith('mem_') and mem[4:] in al:
+            x, d = mem[4:], al[mem[4:]]
+            dm = 'mem_' + d
+            if dm not in self.locals:
+                self.locals[dm] = 'm2'
+                self.free(V(dm), 'm2', ('mem', d))
+            flag = self.free('v_%s__same__%s' % (d, x), 'b', ('same', d, x))
+            return '(if %s then %s else %s)' % (flag, V(dm), V(mem))
+        return V(mem)
+
+    def ptr_swap(self, s):
+        """`if (c) { T const *tmp = X; X = Y; Y = tmp; }` for two struct-pointer PARAMETERS X, Y: (c, X, Y) or None"""
+        if s.get('kind') != 'IfStmt':
+            return None
+        kids = [c for c in s.get('inner', []) if isinstance(c, dict)]
+        if len(kids) != 2 or kids[1].get('kind') != 'CompoundStmt':
+            return None
+        b = [c for c in kids[1].get('inner', []) if isinstance(c, dict)]
+        if len(b) != 3 or b[0].get('kind') != 'DeclStmt':
+            return None
+        ds = [d for d in b[0].get('inner', []) if d.get('kind') == 'VarDecl']
+        if len(ds) != 1 or kind_of(ds[0]['type']['qualType']) != 'p:?':
+            return None
+        tmp = ds[0]['name']
+        init = [c for c in ds[0].get('inner', []) if isinstance(c, dict)]
+
+        def var(e):
+            e = strip(e)
+            while e.get('kind') in ('ImplicitCastExpr', 'CStyleCastExpr', 'ParenExpr'):
+                e = strip(e['inner'][0])
+            return e['referencedDecl'] if e.get('kind') == 'DeclRefExpr' else None
+        if not init or not var(init[0]):
+            return None
+        x = var(init[0])
+        for a_ in b[1:]:
+            if a_.get('kind') != 'BinaryOperator' or a_.get('opcode') != '=':
+                return None
+        l1, r1, l2, r2 = var(b[1]['inner'][0]), var(b[1]['inner'][1]), var(b[2]['inner'][0]), var(b[2]['inner'][1])
+        if not (l1 and r1 and l2 and r2):
+            return None
+        if l1['name'] != x['name'] or l2['name'] != r1['name'] or r2['name'] != tmp:
+            return None
+        if x.get('kind') != 'ParmVarDecl' or r1.get('kind') != 'ParmVarDecl':
+            return None
+        return kids[0], x['name'], r1['name']
+
+    def swap_lets(self, cond, x, y, pad):
+        """the exchange of two struct-pointer parameters: every component of x and y the function uses (memory, header fields,
+        identity flags with the destination) is exchanged when `cond` holds"""
+        c = self.boolean(cond)
+        out = '%slet v__swap : Bool := %s\n' % (pad, c)
+        fields = {}
+
+        def scan(n):
+            if isinstance(n, dict):
+                if n.get('kind') == 'MemberExpr':
+                    b = strip(n['inner'][0])
+                    while b.get('kind') in ('ImplicitCastExpr', 'CStyleCastExpr', 'ParenExpr'):
+                        b = strip(b['inner'][0])
+                    if b.get('kind') == 'DeclRefExpr' and b['referencedDecl']['name'] in (x, y):
+                        fk = self.expr_kind(n)
+                        if not (fk or '').startswith('p:'):
+                            fields[n['name']] = fk
+                for c_ in n.get('inner', []):
+                    scan(c_)
+        scan(self.body_ast)
+        for f in sorted(fields):
+            a = self.free(V('%s_%s' % (x, f)), fields[f], ('field', x, f))
+            b = self.free(V('%s_%s' % (y, f)), fields[f], ('field', y, f))
+            t = LTYPE[fields[f]]
+            out += '%slet (%s, %s) : (%s) × (%s) := if v__swap then (%s, %s) else (%s, %s)\n' % (pad, a, b, t, t, b, a, a, b)
+        for z in (x, y):
+            m = 'mem_' + z
+            if m not in self.locals:
+                self.locals[m] = 'm2'
+                self.free(V(m), 'm2', ('mem', z))
+        a, b, t = V('mem_' + x), V('mem_' + y), LTYPE['m2']
+        out += '%slet (%s, %s) : (%s) × (%s) := if v__swap then (%s, %s) else (%s, %s)\n' % (pad, a, b, t, t, b, a, a, b)
+        al = getattr(self, 'alias', {})
+        if (x in al) != (y in al) or (x in al and al[x] != al[y]):
+            raise CTransError('%s: exchange of %s and %s with different alias declarations' % (self.name, x, y))
+        if x in al:
+            d = al[x]
+            a = self.free('v_%s__same__%s' % (d, x), 'b', ('same', d, x))
+            b = self.free('v_%s__same__%s' % (d, y), 'b', ('same', d, y))
+            out += '%slet (%s, %s) : Bool × Bool := if v__swap then (%s, %s) else (%s, %s)\n' % (pad, a, b, b, a, a, b)
+        return out
 
     def mroot(self, name):
         """(root struct parameter, Lean row offset, Lean word offset) of a matrix name (parameter or window local)"""
@@ -498,7 +590,7 @@ class Fn:
                 if mem not in self.locals:
                     self.locals[mem] = 'm2'
                     self.free(V(mem), 'm2', ('mem', root))
-                out.append(V(mem) if y not in self.malias else '(CLoop.view %s %s %s)' % (V(mem), r0, w0))
+                out.append(self.rmem(mem) if y not in self.malias else '(CLoop.view %s %s %s)' % (V(mem), r0, w0))
             elif org[0] == 'global':
                 out.append(self.free('v_' + org[1], lk, org))
             elif org[0] == 'extern':
@@ -928,6 +1020,9 @@ class Fn:
         k = s.get('kind')
         if k in ('NullStmt',) or (k == 'CStyleCastExpr' and s.get('castKind') == 'ToVoid'):
             return self.seq(rest, k_final, ind)       # `;` and `assert(..)` under NDEBUG
+        if k == 'IfStmt' and self.ptr_swap(s):
+            c_, x_, y_ = self.ptr_swap(s)
+            return self.swap_lets(c_, x_, y_, pad) + self.seq(rest, k_final, ind)
         if k == 'CompoundStmt':
             # a nested block: its declarations are local, but our lets are lexically scoped the same way
             inner = list(s.get('inner', []))
@@ -1671,23 +1766,39 @@ class Fn:
             if 'default' in labels:
                 cs = strip(st)
                 ok = cs.get('kind') == 'CallExpr' and strip(cs['inner'][0]).get('referencedDecl', {}).get('name') in ('m4ri_die', 'abort')
-                if not ok or len(labels) > 1:
-                    raise CTransError('%s: default case that is not m4ri_die/abort' % self.name)
-                continue
+                if ok and len(labels) > 1:
+                    raise CTransError('%s: default case that is m4ri_die/abort shares its statement with a case label' % self.name)
+                if ok:
+                    continue
+                # a real `default:` statement: the position taken when no case label matches
             if self.has([st], ('BreakStmt',)):
                 raise CTransError('%s: break nested in a case statement' % self.name)
+            if st.get('kind') != 'ReturnStmt' and self.has([st], ('ReturnStmt',)):
+                raise CTransError('%s: return nested in a case statement' % self.name)
             labelled.append((labels, st, seg_first))
+            if st.get('kind') == 'ReturnStmt':
+                seg_first = len(labelled)      # nothing falls through a `return`
         poss = []
+        npos = len(labelled)
+        dflt = npos
         for p, (labels, st, sf) in enumerate(labelled):
             for l in labels:
-                poss.append((l, p))
-        npos = len(labelled)
-        chain = '(%d : Int)' % npos
+                if l == 'default':
+                    dflt = p
+                else:
+                    poss.append((l, p))
+        chain = '(%d : Int)' % dflt
         for l, p in reversed(poss):
             chain = '(if %s = (%d : Int) then (%d : Int) else %s)' % ('sw_sel', l, p, chain)
         out = '%slet sw_sel : Int := %s\n%slet sw_pos : Int := %s\n' % (pad, sel, pad, chain)
         for p, (labels, st, sf) in enumerate(labelled):
             self.pending = []
+            if st.get('kind') == 'ReturnStmt':
+                cond = 'decide (sw_pos ≤ (%d : Int))' % p
+                if sf > 0:
+                    cond = '(%s && decide ((%d : Int) ≤ sw_pos))' % (cond, sf)
+                out += '%sif %s then\n%s\n%selse\n' % (pad, cond, self.seq([st], k_final, ind + 1), pad)
+                continue
             a = self.assign_stmt(st) if st.get('kind') in ('BinaryOperator', 'CompoundAssignOperator', 'UnaryOperator') else None
             cond = 'decide (sw_pos ≤ (%d : Int))' % p
             if sf > 0:
@@ -1808,13 +1919,15 @@ class Translator:
            not re.search(r'static\s+uint8_t\s+const\s+mzd_flag_windowed\s*=\s*0x4\s*;', mzdh):
             raise CTransError('mzd.h: the flag constants are no longer 0x2 / 0x4')
 
-    def function(self, cfile, cname, lname, fuels=(), slice_=None, doc='', nosse=False, outparams=None, mem1=None, builder=False, externs=None, retparam=None, retlocal=None):
+    def function(self, cfile, cname, lname, fuels=(), slice_=None, doc='', nosse=False, outparams=None, mem1=None, builder=False, externs=None, retparam=None, retlocal=None, alias=None):
         for i, f in enumerate(fuels):
             self.fuels[(cname if not slice_ else lname, i + 1)] = f
         ast = clang_ast(self.tu_dir if not nosse else self.tu_dir_nosse, cfile, cname, sse=not nosse)
         self.externs = externs
         fn = Fn(self, cname if not slice_ else lname)
+        fn.alias = dict(alias or {})
         body = [c for c in ast['inner'] if c.get('kind') == 'CompoundStmt'][0]
+        fn.body_ast = body
         if slice_ is None:
             for p in ast['inner']:
                 if p.get('kind') == 'ParmVarDecl':
@@ -2095,6 +2208,11 @@ def catalogue(t):
     F('m4ri/mzd.c', 'mzd_stack', 'mzdStack', retparam='C',
       fuels=['(v_A_nrows).toNat', '(v_A_width).toNat', '(v_B_nrows).toNat', '(v_B_width).toNat'],
       doc='for a supplied destination C')
+    F('m4ri/mzd.c', '_mzd_add', 'mzdAdd', retparam='C', nosse=True, alias={'A': 'C', 'B': 'C'},
+      fuels=['(v_nrows).toNat'] * 9,
+      doc='C = A + B with C == A and/or C == B allowed: width-specialised loops (1..8 words), mzd_combine_even beyond')
+    F('m4ri/mzd.c', 'mzd_add', 'mzdAddTop', retparam='ret', nosse=True, alias={'left': 'ret', 'right': 'ret'},
+      doc='for a supplied destination: the dimension checks (die = outside the domain) and _mzd_add')
     F('m4ri/mzd.c', 'mzd_set_ui', 'mzdSetUi', fuels=['(v_A_nrows).toNat', '(v_A_width).toNat', '(v_A_nrows).toNat'])
     TRSM = dict(mats=(0, 1), writes=(1,))
     PLUQ = dict(mats=(0,), perms=(1, 2), ret='i', writes=(0,), pwrites=(1, 2))
